@@ -122,7 +122,7 @@ def check(run):
     # --- streams
     specs = []
     for itemsize in (1, 2, 4, 8, 16):
-        for cbs in (itemsize, 64, 4096, 1 << 22):
+        for cbs in (itemsize, 64, 4096, 1 << 22) + ((itemsize + 1, 3 * itemsize - 1, 100, 1000) if itemsize > 1 else (3, 7)):  # incl. sizes that are not a multiple of the item size
             nel_blk = max(1, cbs // itemsize)
             for nel in sorted({0, 1, 2, nel_blk - 1, nel_blk, nel_blk + 1, 3 * nel_blk, 5 * nel_blk + 1}):
                 if nel < 0:
